@@ -208,7 +208,13 @@ theorem dedupTerms_firstOccs (l : List (String × Option Nat)) :
       rw [hfirst]
       split
       · rename_i hneg
-        have hp2 : p.2 = Option.none := declSTerm_code_neg.mp hneg
+        have hp2 : p.2 = Option.none := hcode ▸ declSTerm_code_neg.mp hneg
+        have hpc : (declSTerm p).code = -1 := by
+          obtain ⟨pn, pk⟩ := p
+          simp only at hp2
+          rw [hp2]
+          rfl
+        rw [hpc]
         have hid : (accO.map declSTerm).map (fun x =>
             if (x.name == p.1) = true then { x with code := -1 } else x) = accO.map declSTerm := by
           rw [List.map_map]
@@ -345,5 +351,259 @@ theorem assignCodes_props (all : List STerm) (l : List STerm) :
       rcases hp with rfl | hp
       · exact ⟨rfl, fun _ => rfl⟩
       · exact h2 p hp
+
+/-! ## `dedupTerms` on arbitrary occurrence lists (mixed declarations with and without code) -/
+
+/-- the distinct elements of a list of names in order of first occurrence -/
+def distinctNames : List String → List String
+  | [] => []
+  | n :: rest => n :: (distinctNames rest).filter (fun m => m != n)
+
+theorem mem_distinctNames {l : List String} {n : String} : n ∈ distinctNames l ↔ n ∈ l := by
+  induction l with
+  | nil => simp [distinctNames]
+  | cons m rest ih =>
+    simp only [distinctNames, List.mem_cons, List.mem_filter, ih, bne_iff_ne, ne_eq]
+    constructor
+    · rintro (h | ⟨h, _⟩)
+      · exact Or.inl h
+      · exact Or.inr h
+    · intro h
+      by_cases hn : n = m
+      · exact Or.inl hn
+      · rcases h with h | h
+        · exact Or.inl h
+        · exact Or.inr ⟨h, hn⟩
+
+theorem nodup_distinctNames (l : List String) : (distinctNames l).Nodup := by
+  induction l with
+  | nil => exact List.nodup_nil
+  | cons m rest ih =>
+    rw [distinctNames, List.nodup_cons]
+    refine ⟨?_, ih.filter _⟩
+    simp [List.mem_filter]
+
+theorem find?_name_none {acc : List STerm} {n : String}
+    (h : acc.find? (fun x => x.name == n) = none) : n ∉ acc.map (·.name) := by
+  intro hm
+  obtain ⟨q, hq, hqn⟩ := List.mem_map.mp hm
+  have := List.find?_eq_none.mp h q hq
+  simp [hqn] at this
+
+theorem find?_name_some {acc : List STerm} {n : String} {e : STerm}
+    (h : acc.find? (fun x => x.name == n) = some e) : e ∈ acc ∧ e.name = n := by
+  have he := List.find?_some h
+  simp only [beq_iff_eq] at he
+  exact ⟨List.mem_of_find?_eq_some h, he⟩
+
+theorem map_name_setCode (acc : List STerm) (n : String) (c : Int) :
+    (acc.map fun x => if x.name == n then { x with code := c } else x).map (·.name)
+      = acc.map (·.name) := by
+  rw [List.map_map]
+  apply List.map_congr_left
+  intro x _
+  simp only [Function.comp]
+  split <;> rfl
+
+theorem dedupTerms_names_acc (l : List STerm) : ∀ (acc ts : List STerm),
+    dedupTerms l acc = .ok ts →
+    ts.map (·.name) = acc.map (·.name) ++
+      (distinctNames (l.map (·.name))).filter (fun m => !(acc.map (·.name)).contains m) := by
+  induction l with
+  | nil =>
+    intro acc ts h
+    simp only [dedupTerms, Except.ok.injEq] at h
+    subst h
+    simp [distinctNames]
+  | cons t rest ih =>
+    intro acc ts h
+    unfold dedupTerms at h
+    have hsome : ∀ e, acc.find? (fun x => x.name == t.name) = some e →
+        acc.map (·.name) ++ (distinctNames (rest.map (·.name))).filter
+            (fun m => !(acc.map (·.name)).contains m) =
+          acc.map (·.name) ++ (distinctNames ((t :: rest).map (·.name))).filter
+            (fun m => !(acc.map (·.name)).contains m) := by
+      intro e hf
+      obtain ⟨hem, hen⟩ := find?_name_some hf
+      have hin : t.name ∈ acc.map (·.name) := List.mem_map.mpr ⟨e, hem, hen⟩
+      congr 1
+      rw [List.map_cons, distinctNames, List.filter_cons, if_neg (by simpa using hin),
+        List.filter_filter]
+      apply List.filter_congr
+      intro m _
+      by_cases hm : m = t.name
+      · subst hm; simp [hin]
+      · simp [hm]
+    split at h
+    · rename_i hf
+      have hnot := find?_name_none hf
+      rw [ih _ _ h, List.map_append, List.append_assoc]
+      congr 1
+      have hd : distinctNames ((t :: rest).map (·.name)) =
+          t.name :: (distinctNames (rest.map (·.name))).filter (fun m => m != t.name) := rfl
+      rw [hd, List.filter_cons, if_pos (by simpa using hnot), List.filter_filter]
+      simp only [List.map_cons, List.map_nil, List.singleton_append, List.cons.injEq, true_and]
+      apply List.filter_congr
+      intro m _
+      by_cases hm : m = t.name <;> simp [hm]
+    · rename_i e hf
+      split at h
+      · cases h
+      · split at h
+        · rw [ih _ _ h, map_name_setCode]
+          exact hsome e hf
+        · rw [ih _ _ h]
+          exact hsome e hf
+
+/-- `c` is the explicit code of an occurrence of the name `n` in `L` -/
+def ExplCode (L : List STerm) (n : String) (c : Int) : Prop :=
+  ∃ p ∈ L, p.name = n ∧ p.code = c ∧ c ≠ -1
+
+theorem eq_of_nodup_names {acc : List STerm} (h : (acc.map (·.name)).Nodup) {p q : STerm}
+    (hp : p ∈ acc) (hq : q ∈ acc) (hn : p.name = q.name) : p = q := by
+  induction acc with
+  | nil => cases hp
+  | cons a rest ih =>
+    rw [List.map_cons, List.nodup_cons] at h
+    rcases List.mem_cons.mp hp with rfl | hp' <;> rcases List.mem_cons.mp hq with rfl | hq'
+    · rfl
+    · exact absurd (List.mem_map.mpr ⟨q, hq', hn.symm⟩) h.1
+    · exact absurd (List.mem_map.mpr ⟨p, hp', hn⟩) h.1
+    · exact ih h.2 hp' hq'
+
+theorem dedupTerms_inv (l : List STerm) : ∀ (acc : List STerm) (X : String → Int → Prop),
+    (acc.map (·.name)).Nodup → (∀ n c, X n c ↔ ExplCode (acc ++ l) n c) →
+    ((∀ n c c', X n c → X n c' → c = c') → ∃ ts, dedupTerms l acc = .ok ts) ∧
+    ∀ ts, dedupTerms l acc = .ok ts →
+      (∀ n c c', X n c → X n c' → c = c') ∧
+      ∀ t ∈ ts, (t.code ≠ -1 → X t.name t.code) ∧ ∀ c, X t.name c → t.code = c := by
+  induction l with
+  | nil =>
+    intro acc X hnd hX
+    simp only [List.append_nil] at hX
+    have hbase : (∀ n c c', X n c → X n c' → c = c') := by
+      intro n c c' h1 h2
+      obtain ⟨p, hp, hpn, hpc, _⟩ := (hX _ _).mp h1
+      obtain ⟨q, hq, hqn, hqc, _⟩ := (hX _ _).mp h2
+      have := eq_of_nodup_names hnd hp hq (hpn.trans hqn.symm)
+      rw [← hpc, ← hqc, this]
+    refine ⟨fun _ => ⟨acc, rfl⟩, ?_⟩
+    intro ts h
+    simp only [dedupTerms, Except.ok.injEq] at h
+    subst h
+    refine ⟨hbase, fun t ht => ⟨fun hc => (hX _ _).mpr ⟨t, ht, rfl, rfl, hc⟩, ?_⟩⟩
+    intro c hc
+    obtain ⟨p, hp, hpn, hpc, _⟩ := (hX _ _).mp hc
+    have := eq_of_nodup_names hnd hp ht hpn
+    rw [← hpc, this]
+  | cons t rest ih =>
+    intro acc X hnd hX
+    unfold dedupTerms
+    split
+    · rename_i hf
+      have hnot := find?_name_none hf
+      apply ih (acc ++ [t]) X
+      · rw [List.map_append, List.nodup_append]
+        refine ⟨hnd, by simp, ?_⟩
+        intro a ha b hb
+        simp only [List.map_cons, List.map_nil, List.mem_singleton] at hb
+        subst hb
+        intro hab
+        exact hnot (hab ▸ ha)
+      · intro n c
+        rw [hX, List.append_assoc]
+        rfl
+    · rename_i e hf
+      obtain ⟨hem, hen⟩ := find?_name_some hf
+      split
+      · rename_i hcond
+        simp only [Bool.and_eq_true, bne_iff_ne, ne_eq] at hcond
+        refine ⟨fun hec => ?_, fun ts h => by cases h⟩
+        exfalso
+        exact hcond.2 (hec t.name e.code t.code
+          ((hX _ _).mpr ⟨e, List.mem_append_left _ hem, hen, rfl, hcond.1.2⟩)
+          ((hX _ _).mpr ⟨t, List.mem_append_right _ List.mem_cons_self, rfl, rfl, hcond.1.1⟩))
+      · rename_i hcond
+        simp only [Bool.and_eq_true, bne_iff_ne, ne_eq, not_and, Classical.not_not] at hcond
+        split
+        · rename_i hneg
+          simp only [beq_iff_eq] at hneg
+          apply ih _ X
+          · rw [map_name_setCode]; exact hnd
+          · intro n c
+            rw [hX]
+            constructor
+            · rintro ⟨p, hp, hpn, hpc, hc⟩
+              rcases List.mem_append.mp hp with hp | hp
+              · have hne : p.name ≠ t.name := by
+                  intro h
+                  have := eq_of_nodup_names hnd hp hem (h.trans hen.symm)
+                  rw [this, hneg] at hpc
+                  exact hc hpc.symm
+                refine ⟨p, List.mem_append_left _ (List.mem_map.mpr ⟨p, hp, ?_⟩), hpn, hpc, hc⟩
+                simp [hne]
+              · rcases List.mem_cons.mp hp with rfl | hp
+                · refine ⟨⟨e.name, p.code⟩, List.mem_append_left _ (List.mem_map.mpr ⟨e, hem, ?_⟩),
+                    hen.trans hpn, hpc, hc⟩
+                  simp [hen]
+                · exact ⟨p, List.mem_append_right _ hp, hpn, hpc, hc⟩
+            · rintro ⟨p, hp, hpn, hpc, hc⟩
+              rcases List.mem_append.mp hp with hp | hp
+              · obtain ⟨x, hx, rfl⟩ := List.mem_map.mp hp
+                by_cases hxn : x.name = t.name
+                · simp only [hxn, beq_self_eq_true, if_true] at hpn hpc
+                  exact ⟨t, List.mem_append_right _ List.mem_cons_self, hpn, hpc, hc⟩
+                · have : (x.name == t.name) = false := by simpa using hxn
+                  simp only [this] at hpn hpc
+                  exact ⟨x, List.mem_append_left _ hx, hpn, hpc, hc⟩
+              · exact ⟨p, List.mem_append_right _ (List.mem_cons_of_mem _ hp), hpn, hpc, hc⟩
+        · rename_i hnn
+          simp only [beq_iff_eq] at hnn
+          apply ih acc X hnd
+          intro n c
+          rw [hX]
+          constructor
+          · rintro ⟨p, hp, hpn, hpc, hc⟩
+            rcases List.mem_append.mp hp with hp | hp
+            · exact ⟨p, List.mem_append_left _ hp, hpn, hpc, hc⟩
+            · rcases List.mem_cons.mp hp with rfl | hp
+              · have hpne : p.code ≠ -1 := hpc ▸ hc
+                exact ⟨e, List.mem_append_left _ hem, hen.trans hpn, (hcond ⟨hpne, hnn⟩).trans hpc, hc⟩
+              · exact ⟨p, List.mem_append_right _ hp, hpn, hpc, hc⟩
+          · rintro ⟨p, hp, hpn, hpc, hc⟩
+            rcases List.mem_append.mp hp with hp | hp
+            · exact ⟨p, List.mem_append_left _ hp, hpn, hpc, hc⟩
+            · exact ⟨p, List.mem_append_right _ (List.mem_cons_of_mem _ hp), hpn, hpc, hc⟩
+
+/-- two explicit codes of one name are equal (occurrences without code, `-1`, say nothing) -/
+def ExplicitConsistent (l : List STerm) : Prop :=
+  ∀ p ∈ l, ∀ q ∈ l, p.name = q.name → p.code ≠ -1 → q.code ≠ -1 → p.code = q.code
+
+theorem explicitConsistent_iff {l : List STerm} :
+    ExplicitConsistent l ↔ ∀ n c c', ExplCode l n c → ExplCode l n c' → c = c' := by
+  constructor
+  · rintro h n c c' ⟨p, hp, hpn, hpc, hc⟩ ⟨q, hq, hqn, hqc, hc'⟩
+    rw [← hpc, ← hqc]
+    exact h p hp q hq (hpn.trans hqn.symm) (hpc ▸ hc) (hqc ▸ hc')
+  · intro h p hp q hq hn hpc hqc
+    exact h q.name p.code q.code ⟨p, hp, hn, rfl, hpc⟩ ⟨q, hq, rfl, rfl, hqc⟩
+
+/-- `dedupTerms` on an arbitrary occurrence list: it succeeds iff the explicit codes are
+consistent; the result has the distinct names in order of first occurrence; the code of an
+entry is the explicit code of the name if some occurrence has one, `-1` otherwise -/
+theorem dedupTerms_spec (l : List STerm) :
+    (ExplicitConsistent l → ∃ ts, dedupTerms l [] = .ok ts) ∧
+    ∀ ts, dedupTerms l [] = .ok ts →
+      ExplicitConsistent l ∧
+      ts.map (·.name) = distinctNames (l.map (·.name)) ∧
+      ∀ t ∈ ts, (t.code ≠ -1 → ExplCode l t.name t.code) ∧ ∀ c, ExplCode l t.name c → t.code = c := by
+  obtain ⟨h1, h2⟩ := dedupTerms_inv l [] (ExplCode l) List.nodup_nil (fun n c => by rw [List.nil_append])
+  refine ⟨fun h => h1 (explicitConsistent_iff.mp h), fun ts hts => ?_⟩
+  obtain ⟨h3, h4⟩ := h2 ts hts
+  refine ⟨explicitConsistent_iff.mpr h3, ?_, h4⟩
+  have := dedupTerms_names_acc l [] ts hts
+  rw [this]
+  simp only [List.map_nil, List.nil_append, List.contains_nil, Bool.not_false]
+  exact List.filter_eq_self.mpr (fun _ _ => rfl)
 
 end Yaep
